@@ -10,7 +10,7 @@ import re
 from ..astutil import call_attr, calls_in, guard_facts, parent_map, unparse, walk_local
 from ..cfg import CFG
 from ..report import Finding, Report
-from ..srcindex import AnalysisError, Index
+from ..srcindex import AnalysisError, Index, raw_funcs
 
 LA = "xdsl/analysis/liveness_analysis.py"
 SA = "xdsl/analysis/sparse_analysis.py"
@@ -487,6 +487,35 @@ def check_visit_every_op(idx: Index, rep: Report) -> None:
     r.ok(f.fq, f"{f.loc} visit_operation({pt}.op) on every path with an operation")
 
 
+def check_on_update_chain(idx: Index, rep: Report) -> None:
+    """AnalysisState.on_update enqueues the explicit dependents (the backward analysis registers the *defining* operation of a
+    value that way).  A subclass that overrides on_update adds its own notifications on top; it must still reach the base
+    implementation on every path, otherwise a lattice that changes does not wake its dependents."""
+    r = rep.rule("C25.R7", "every override of AnalysisState.on_update in the anchored analyses reaches super().on_update(solver) on every path", floor=1)
+    n = 0
+    for rel in (SA, DF, LA):
+        for f in raw_funcs(idx.module(rel)):
+            if f.name != "on_update" or f.cls is None:
+                continue
+            calls = [c for c in calls_in(f.node) if call_attr(c) == "on_update" and isinstance(c.func, ast.Attribute) and unparse(c.func.value) == "super()"]
+            is_base = f.cls.name == "AnalysisState"
+            if is_base:
+                continue
+            n += 1
+            inst = f"{f.fq}:super"
+            cfg = CFG(f.node)
+            sup = {cfg.node_of(c) for c in calls}
+            leak = cfg.path_avoiding(cfg.entry, cfg.exit, lambda x: x.id in sup, follow_exc=False)
+            if not calls:
+                raise AnalysisError(f"{f.fq}: overrides on_update without delegating to super(); how the explicit dependents are enqueued was not recognised")
+            if leak is None:
+                r.ok(inst, f"{f.loc} super().on_update(solver) on every path")
+            else:
+                r.fail(inst, Finding("C25.R7", f.fq, "dependents-not-notified", f"a path through {f.cls.name}.on_update skips `super().on_update(...)` (" + " -> ".join(cfg.describe(leak)[-3:]) + "): the explicit dependents of the lattice (for the backward analysis: the operation that defines the value) are not enqueued when it changes, so liveness stops propagating at that value unless the schedule happens to visit consumers first", f"{rel}:{f.node.lineno}"))
+    if n == 0:
+        raise AnalysisError("no override of on_update found in the analysis modules (PropagatingLattice.on_update expected)")
+
+
 def check(idx: Index, rep: Report, tier: str) -> str:
     rep.run(check_monotone, idx, rep)
     rep.run(check_propagation, idx, rep)
@@ -494,6 +523,7 @@ def check(idx: Index, rep: Report, tier: str) -> str:
     rep.run(check_solver, idx, rep)
     rep.run(check_transfer, idx, rep)
     rep.run(check_visit_every_op, idx, rep)
+    rep.run(check_on_update_chain, idx, rep)
     return (
         "Premise-by-premise check of the classical argument 'monotone transfer + every change notifies all dependents + "
         "every read lattice is a registered dependency + drained worklist => unique least fixpoint independent of the "
